@@ -265,7 +265,7 @@ def apply_cfg(text, cfg, applied):
             text = text[:a] + text[e:]
 
 
-def drop_comments_and_attrs(text, applied):
+def drop_comments_and_attrs(text, applied, keep_derives=("Clone", "Copy", "PartialEq", "Eq")):
     mask = code_mask(text)
     out = []
     i = 0
@@ -284,7 +284,7 @@ def drop_comments_and_attrs(text, applied):
             attr = text[i:close + 1]
             m = re.match(r"#\[derive\((.*)\)\]$", attr, re.S)
             if m:
-                keep = [d.strip() for d in m.group(1).split(",") if d.strip() in ("Clone", "Copy", "PartialEq", "Eq")]
+                keep = [d.strip() for d in m.group(1).split(",") if d.strip() in keep_derives]
                 if keep:
                     out.append("#[derive(" + ", ".join(keep) + ")]")
                 applied.add("R1 derive reduced to " + (",".join(keep) or "nothing"))
@@ -492,13 +492,19 @@ def build_unit(unit, repo):
     path = os.path.join(repo, unit["file"])
     if not os.path.exists(path):
         raise LiftError(f"lost anchor: {unit['file']} does not exist")
-    src = open(path).read()
+    src0 = open(path).read()
     parts = []
     for it in unit["items"]:
         kind, name = it["kind"], it["name"]
+        src = src0
+        if it.get("file"):
+            ipath = os.path.join(repo, it["file"])
+            if not os.path.exists(ipath):
+                raise LiftError(f"lost anchor: {it['file']} does not exist")
+            src = open(ipath).read()
         text = extract_item(src, kind, name, it.get("nth", 0))
         text = apply_cfg(text, unit.get("cfg", {}), applied)
-        text = drop_comments_and_attrs(text, applied)
+        text = drop_comments_and_attrs(text, applied, tuple(it.get("derives", ("Clone", "Copy", "PartialEq", "Eq"))))
         text = widen_visibility(text, kind, applied)
         text = rewrite_asserts(text, applied)
         only = it.get("only_fns")
@@ -517,7 +523,7 @@ def build_unit(unit, repo):
                 continue
             if kind in ("impl", "fn") and any(f[0] == fname for f in split_fns(text)):
                 text = rewrite_fn(text, fname, contract, applied)
-        parts.append(f"// ---- extracted from {unit['file']}: {kind} {name} ----\n" + text.strip() + "\n")
+        parts.append(f"// ---- extracted from {it.get('file') or unit['file']}: {kind} {name} ----\n" + text.strip() + "\n")
     missing = [f for f in unit.get("contracts", {}) if not any(re.search(r"\bfn\s+" + re.escape(f) + r"\b", p) for p in parts)]
     if missing:
         raise LiftError(f"lost anchor: contracted fn(s) {missing} not extracted")
